@@ -14,7 +14,7 @@ use crate::{
 use std::collections::HashSet;
 use swc_common::{SyntaxContext, DUMMY_SP};
 use swc_ecma_ast::{Stmt::Decl as DeclEnumOption, *};
-use swc_ecma_visit::{Visit, VisitMut, VisitMutWith};
+use swc_ecma_visit::{Visit, VisitMut, VisitMutWith, VisitWith};
 
 pub struct BlockTransformVisitor<'a> {
     pub transform_status: &'a mut TransformStatus,
@@ -77,6 +77,18 @@ impl VisitMut for BlockTransformVisitor<'_> {
     }
 
     fn visit_mut_program(&mut self, node: &mut Program) {
+        // identifiers that are not visited block by block (parameters of top level functions,
+        // arrow parameters, operands of delete, templates with literal substitutions...) can
+        // clash with the injected variables too: refuse the file wherever the prefix shows up
+        let mut reserved_name_finder = ReservedNameFinder {
+            prefix: get_dd_local_variable_prefix(&self.config.local_var_prefix),
+            found: false,
+        };
+        node.visit_with(&mut reserved_name_finder);
+        if reserved_name_finder.found {
+            return self.cancel_visit("Variable name duplicated");
+        }
+
         node.visit_mut_children_with(self);
 
         if self.transform_status.status == Status::Modified {
@@ -104,6 +116,19 @@ impl VisitMut for BlockTransformVisitor<'_> {
                     }
                 }
             }
+        }
+    }
+}
+
+struct ReservedNameFinder {
+    prefix: String,
+    found: bool,
+}
+
+impl Visit for ReservedNameFinder {
+    fn visit_ident(&mut self, ident: &Ident) {
+        if ident.sym.starts_with(&self.prefix) {
+            self.found = true;
         }
     }
 }
